@@ -235,6 +235,7 @@ func (x *Exec) callByContract(st *State, fr *Frame, callee *ssa.Function, fc *Fu
 	}
 	old := st.snapshot()
 	// frame: havoc what the callee may modify
+	x.bumpNext(st)
 	x.havocForCall(st, env, callee, fc, name)
 	// results
 	var res []*Value
@@ -619,6 +620,7 @@ func (x *Exec) callBySlot(st *State, fr *Frame, sc *FuncContract, slot string, s
 		x.oblige(st, tag, label, props, x.evalBool(env, r.Expr), where, r.Src)
 	}
 	old := st.snapshot()
+	x.bumpNext(st)
 	if sc.HasMod {
 		classes := map[string]bool{}
 		for _, m := range sc.Modifies {
@@ -829,26 +831,18 @@ func (x *Exec) appendBuiltin(st *State, args []*Value, rt types.Type, pos ssa.In
 			na, addT(soff, slen_), addT(soff, nlen), telem(subT("i", addT(soff, slen_))), base, na))
 		content = na
 	}
-	inplace := and(eq(narr, sarr), leT(nlen, scap), eq(ncap, scap))
-	fresh := and(app(">", narr, x.allocBound()), not(eq(narr, sarr)), x.distinctFromKnown(st, narr), app(">=", ncap, nlen), app(">", nlen, scap))
 	if tl, ok := termIsIntLit(tlen); ok && tl == 0 {
 		// appending nothing returns s unchanged (possibly nil)
 		return &Value{T: x.term(s), Typ: rt}
 	}
+	cur := x.nextTerm(st)
+	n2 := x.freshSort("next", "Int")
+	inplace := and(eq(narr, sarr), leT(nlen, scap), eq(ncap, scap), eq(n2, cur))
+	fresh := and(app(">=", narr, cur), eq(n2, app("+", narr, "1")), app(">=", ncap, nlen), app(">", nlen, scap))
 	st.assume(or(inplace, fresh))
+	st.heaps["!next"] = n2
 	x.setHeap(st, hn, hs, app("store", h, narr, content))
 	return &Value{T: app("mk_slice", narr, soff, nlen, ncap), Typ: rt}
-}
-
-// distinctFromKnown: a freshly allocated array differs from every array
-// reference allocated earlier on this path.
-func (x *Exec) distinctFromKnown(st *State, r string) string {
-	cnt := 0
-	if v, ok := st.heaps["!alloc"]; ok {
-		fmt.Sscanf(v, "%d", &cnt)
-	}
-	// refs allocated on this path are alloc_bound+1..alloc_bound+cnt; runtime-fresh arrays lie above them
-	return app(">", r, app("+", x.allocBound(), fmt.Sprint(cnt+1000)))
 }
 
 func (x *Exec) copyBuiltin(st *State, args []*Value, rt types.Type, pos ssa.Instruction) *Value {
